@@ -52,7 +52,7 @@ func (r *c11Runner) run(i int, cs *Case, prefix uint8, s *refz80.State) (refz80.
 	m.Poke(cs.S.PC, cs.Bytes...)
 	m.Poke(cs.S.PC, prefix)
 	r.io[i].Reset()
-	r.io[i].X, r.io[i].Y = cs.IOX, cs.IOY
+	r.io[i].X, r.io[i].Y, r.io[i].Fixed = cs.IOX, cs.IOY, cs.IOFixed
 	toCPU(s, &r.cpu[i])
 	r.cpu[i].Interrupt = nil
 	p := c02Step(&r.cpu[i])
